@@ -17,6 +17,7 @@ EXHAUSTIVE = {"thorough": True}
 
 VALS = (0x00, 0x01, 0x7F, 0x80, 0xFF)
 CASE_ALARM_S = 60
+MEM_CEILING = 2 << 30
 
 
 class CaseTimeout(BaseException):
@@ -37,13 +38,15 @@ def shards(tier, seed):
         n = len(data)
         if tier == "quick":
             out += [{"name": f"{f}:T-head:{i}", "file": f, "mode": "T", "lo": i * 1024, "hi": min(n, (i + 1) * 1024)} for i in range(4)]
-            out += [{"name": f"{f}:T-fields", "file": f, "mode": "T-fields"}]
+            out += [{"name": f"{f}:T-fields", "file": f, "mode": "T-fields", "sub": "T"}, {"name": f"{f}:field-ids", "file": f, "mode": "T-fields", "sub": "F"},
+                    {"name": f"{f}:varint-inflation", "file": f, "mode": "T-fields", "sub": "V"}]
             out += [{"name": f"{f}:seeded:{i}", "file": f, "mode": "seeded", "n": 130} for i in range(6)]
             out += [{"name": f"{f}:carrier:{i}", "file": f, "mode": "carrier", "zones": 4, "vals": 2} for i in range(6)]
         else:
             k = 48; step = (n + k - 1) // k
             out += [{"name": f"{f}:T:{i}", "file": f, "mode": "T", "lo": i * step, "hi": min(n + 1, (i + 1) * step)} for i in range(k)]
-            out += [{"name": f"{f}:T-fields", "file": f, "mode": "T-fields"}]
+            out += [{"name": f"{f}:T-fields", "file": f, "mode": "T-fields", "sub": "T"}, {"name": f"{f}:field-ids", "file": f, "mode": "T-fields", "sub": "F"},
+                    {"name": f"{f}:varint-inflation", "file": f, "mode": "T-fields", "sub": "V"}]
             out += [{"name": f"{f}:seeded:{i}", "file": f, "mode": "seeded", "n": 9000} for i in range(24)]
             out += [{"name": f"{f}:carrier:{i}", "file": f, "mode": "carrier-all", "i": i, "k": 32} for i in range(32)]
     return out
@@ -218,8 +221,14 @@ def sub_values(orig, rng, n):
 
 
 def run(ctx, shard):
+    import resource
+
     from vf.models import nzd_ref
     from vf.props.c06 import file_bytes
+    try:
+        resource.setrlimit(resource.RLIMIT_AS, (MEM_CEILING, MEM_CEILING))   # memory ceiling of the fault model (DESIGN C20)
+    except Exception as e:  # noqa: BLE001
+        ctx.note(f"could not set the memory ceiling: {e!r}")
     for k in REQUIRED["any"] + ["zones_rejected"]:
         ctx.counters.setdefault(k, 0)
     which = shard["file"]; data = file_bytes(which); n = len(data)
@@ -243,10 +252,33 @@ def run(ctx, shard):
         pts = sorted(pts)
         if ctx.tier == "quick" and len(pts) > 600:
             pts = sorted(rng.sample(pts, 600))
-        for p in pts:
+        sub = shard.get("sub", "TFV")
+        for p in (pts if "T" in sub else []):
             R.run_case(data[:p], ["T", p], field_at(table, p))
-        # intact file and intact file plus trailing garbage
+        # intact file
         R.run_case(data, ["T", n], "intact")
+        # (F) field-id byte replaced by every other id 0..8 (duplicates of single-instance fields, zones before the string pool, unknown ids)
+        heads = [t for t in table if t[0] != 1] + rng.sample([t for t in table if t[0] == 1], 10 if ctx.tier == "quick" else 120)
+        for fid, a, b, e in (heads if "F" in sub else []):
+            for v in range(0, 9):
+                if v != fid:
+                    R.run_case(apply_fault(data, ["S", a, v]), ["S", a, v], f"field-id:{fid}->{v}")
+        # (V) a count/length varint inflated to 4 and 5 bytes (allocation bombs), at the first bytes of fields and zone bodies
+        for fid, a, b, e in (rng.sample(table, 10 if ctx.tier == "quick" else 150) if "V" in sub else []):
+            for off in range(0, 6):
+                p = b + off
+                if p + 5 > e: break
+                for pat in (b"\xff\xff\xff\x7f", b"\xff\xff\xff\xff\x07"):
+                    bb = bytearray(data); bb[p:p + len(pat)] = pat
+                    zid = None
+                    if fid == 1:
+                        try:
+                            zid = nzd_ref.R(data[b:e], pool).string()
+                        except Exception:  # noqa: BLE001
+                            zid = None
+                    rel = {zid} | {k_ for k_, v_ in idmap.items() if v_ == zid} if zid else None
+                    want = (lambda cids, rel=rel: [c for c in cids if c in rel] + [c for c in cids if c not in known_ids][:10] + list(cids)[:5]) if rel else None
+                    R.run_case(bytes(bb), ["K", list(range(p, p + len(pat))), list(pat)], f"varint-inflation:{fid}", want)
         ctx.sample({"file": which, "fault": ["T", pts[len(pts) // 2]], "fields": len(table)})
     elif mode == "seeded":
         for _ in range(shard["n"]):
@@ -296,6 +328,10 @@ def run(ctx, shard):
         for zf in chosen:
             cdata, zs, zb, ze = carrier(data, table, zf)
             R.run_case(cdata, ["carrier-intact", zf[1]], "zone")
+            for off in range(0, min(10, ze - zb - 5)):
+                for pat in (b"\xff\xff\xff\x7f", b"\xff\xff\xff\xff\x07"):
+                    bb = bytearray(cdata); bb[zb + off:zb + off + len(pat)] = pat
+                    R.run_case(bytes(bb), ["CV", zf[1], off, len(pat)], "zone-varint-inflation")
             for p in range(zs, ze):
                 for v in sub_values(cdata[p], rng, nv):
                     b = bytearray(cdata); b[p] = v
@@ -315,6 +351,12 @@ def replay(ctx, case):
         zf = next(t for t in table if t[1] == label[1])
         cdata, zs, zb, ze = carrier(data, table, zf)
         b = bytearray(cdata); b[zs + label[2]] = label[3]
+        R.run_case(bytes(b), label, "zone")
+    elif label[0] == "CV":
+        zf = next(t for t in table if t[1] == label[1])
+        cdata, zs, zb, ze = carrier(data, table, zf)
+        pat = b"\xff\xff\xff\x7f" if label[3] == 4 else b"\xff\xff\xff\xff\x07"
+        b = bytearray(cdata); b[zb + label[2]:zb + label[2] + len(pat)] = pat
         R.run_case(bytes(b), label, "zone")
     elif label[0] == "carrier-intact":
         zf = next(t for t in table if t[1] == label[1])
